@@ -227,3 +227,60 @@ Proof.
   - split; [reflexivity|]. split; [reflexivity|]. eexists. split; [reflexivity|]. intros _.
     unfold T10.not_bech32. vm_compute. repeat split.
 Qed.
+
+(** ** the two recipient predicates computed by the model from the address value *)
+Definition shape_of (a : M10.addr) : ashape :=
+  match a with
+  | M10.ARaw _ M10.Sprout _ => SSprout
+  | M10.ARaw _ M10.Sapling _ => SSapling
+  | M10.ARaw _ M10.P2pkh _ => SP2pkh
+  | M10.ARaw _ M10.P2sh _ => SP2sh
+  | M10.ARaw _ M10.Tex _ => STex
+  | M10.AUni _ items => SUnified (map (fun it => Z.of_N (fst it)) items)
+  end.
+Definition c_can_memo (a : M10.addr) : bool := shape_memo (shape_of a).
+Definition c_t_only (a : M10.addr) : bool := shape_tonly (shape_of a).
+
+(** a unified address with a transparent receiver and otherwise only unknown receivers is
+    transparent-only and cannot receive a memo: unknown typecodes do not count as shielded *)
+Lemma unknown_receivers_not_shielded tcs :
+  existsb transparent_tc tcs = true -> forallb (fun tc => negb (shielded_tc tc)) tcs = true ->
+  shape_tonly (SUnified tcs) = true /\ shape_memo (SUnified tcs) = false.
+Proof.
+  intros T S. assert (E : existsb shielded_tc tcs = false).
+  { destruct (existsb shielded_tc tcs) eqn:E; [|reflexivity]. apply existsb_exists in E. destruct E as (x & Hx & Sx).
+    rewrite forallb_forall in S. specialize (S x Hx). rewrite Sx in S. discriminate. }
+  cbn [shape_tonly shape_memo]. rewrite T, E. split; reflexivity.
+Qed.
+
+Section ConcreteFlags.
+  Variable H : N -> nat -> V.Lib.Hex.bytes -> V.Lib.Hex.bytes.
+  Variable G : N -> N -> V.Lib.Hex.bytes -> V.Lib.Hex.bytes.
+
+  (** acceptance conditions with the model's predicates: in an accepted request no payment carries a memo to
+      a recipient that cannot receive one, and none is a zero-valued output to a transparent-only recipient *)
+  Theorem concrete_acceptance uri (r : request M10.addr) :
+    from_uri M10.addr (c_dec H G) c_can_memo c_t_only uri = Ok r ->
+    Forall (fun ip => let p := snd ip in
+                      (p_memo p <> None -> c_can_memo (p_addr p) = true) /\
+                      ~ (c_t_only (p_addr p) = true /\ p_amount p = Some 0)) r.
+  Proof.
+    intros A. apply accepted_is_valid in A. destruct A as [_ V]. unfold validb in V.
+    apply andb_true_iff in V. destruct V as [_ V]. apply Forall_forall. intros ip Hip.
+    rewrite forallb_forall in V. specialize (V ip Hip). unfold valid_paymentb in V.
+    repeat (apply andb_true_iff in V; destruct V as [V ?]). cbv zeta. split.
+    - intros NM. unfold memo_rule in V. destruct (p_memo (snd ip)); [exact V | congruence].
+    - intros [T Z0]. match goal with Hz : zero_transparent_rule _ _ _ = true |- _ => unfold zero_transparent_rule in Hz; rewrite T, Z0 in Hz; discriminate end.
+  Qed.
+
+  (** [Payment::new] on such a unified recipient with amount 0 is refused *)
+  Theorem payment_new_zero_unknown_ua n items la ms ot :
+    existsb transparent_tc (map (fun it => Z.of_N (fst it)) items) = true ->
+    forallb (fun tc => negb (shielded_tc tc)) (map (fun it => Z.of_N (fst it)) items) = true ->
+    payment_new M10.addr c_can_memo c_t_only (M10.AUni n items) (Some 0) None la ms ot = Err PZeroTransparent.
+  Proof.
+    intros T S. rewrite payment_new_spec. cbv zeta. unfold memo_rule, zero_transparent_rule.
+    cbn [p_addr p_amount p_memo negb]. unfold c_t_only. cbn [shape_of].
+    destruct (unknown_receivers_not_shielded _ T S) as [-> _]. reflexivity.
+  Qed.
+End ConcreteFlags.
